@@ -13,6 +13,7 @@ import ast
 import sys
 
 from ..repo import AnalysisError, attr_chain, norm, walk_no_nested
+from ..consteval import NotConstant
 from ..cfg import CFG, node_calls
 
 LEVEL = "other"
@@ -439,7 +440,8 @@ def prescan_byte_sets(ctx):
           "`<meta/charset=utf-8>` is a meta element for the standard (and for the tokenizer) but is skipped by the pre-scan, which "
           "matters where the tree builder cannot see it later (inside title, script, style, textarea)")
     # (b) tag-name end
-    hp = ctx.repo.func(REL, "EncodingParser.handlePossibleTag")
+    tag_entries = _tag_entries(ctx)
+    hp = tag_entries["start"][0]
     env = ce.local_env(hp.node, mod)
     sk = [c for c in ast.walk(hp.node) if isinstance(c, ast.Call) and norm(c.func).endswith("skipUntil") and c.args]
     got = ce.try_eval(sk[0].args[0], mod, env) if len(sk) == 1 else None
@@ -468,7 +470,7 @@ def prescan_byte_sets(ctx):
     # (f) `<meta` followed by any other byte is the beginning of an ordinary tag (`<metadata ...>`): its name and attributes are
     # skipped like any tag's, not scanned as markup
     early = first.body if first is not None else []
-    hands_over = any(isinstance(c, ast.Call) and norm(c.func) in ("self.handlePossibleTag", "self.handlePossibleStartTag") for st in early for c in ast.walk(st))
+    hands_over = any(isinstance(c, ast.Call) and norm(c.func) in {"self." + n_ for _, _, ch_ in tag_entries.values() for n_ in ch_} for st in early for c in ast.walk(st))
     steps_back = any(isinstance(a, ast.AugAssign) and isinstance(a.op, ast.Sub) and norm(a.target).endswith(".position") and
                      ce.try_eval(a.value, mod, {}) == 4 for st in early for a in ast.walk(st))
     plain_return = len(early) == 1 and isinstance(early[0], ast.Return)
@@ -476,31 +478,33 @@ def prescan_byte_sets(ctx):
             wrong=[(plain_return, "`<meta` followed by a byte other than white space or `/` is dropped and scanning resumes inside the tag: "
                                   "`<metadata a=\"<meta charset=koi8-r>\">` yields koi8-r from inside an attribute value; for the standard it is an "
                                   "ordinary tag whose attributes are skipped")])
-    # (g) a `<` that starts no tag consumes nothing else: the byte after it is examined again
-    nl = next((st for st in hp.node.body if isinstance(st, ast.If) and "asciiLettersBytes" in norm(st.test)), None)
-    if nl is None:
-        r.idiom("C06.17", False, "lone-lt-keeps-next-byte", hp.where, "handlePossibleTag: the not-a-letter branch was not found")
-    else:
-        # paths of the branch for a start tag (endTag false): is previous() called?
-        param = hp.params()[1]
-        def start_path_calls_previous(stmts):
-            for st in stmts:
-                if isinstance(st, ast.If) and norm(st.test) == param:
-                    if start_path_calls_previous(st.orelse):
-                        return True
-                    continue
-                if isinstance(st, ast.If) and norm(st.test) == "not " + param:
-                    if start_path_calls_previous(st.body):
-                        return True
-                    continue
-                if any(isinstance(c, ast.Call) and norm(c.func).endswith(".previous") for c in ast.walk(st)):
-                    return True
+    # (g) a `<` that starts no tag consumes nothing else: the byte after it is examined again.  Decided by running the handler the
+    # dispatch table maps `<` to on "the byte at the position is not a letter" and looking for the step back.
+    from ..partition import MiniInterp, Opaque
+    sf, sbound, _ = tag_entries["start"]
+
+    def _hook(node, local):
+        if norm(node) in ("data.currentByte", "self.data.currentByte"):
+            return b"1"
+        return NotImplemented
+
+    def _stmt_hook(st, out, interp):
+        if isinstance(st, ast.Assign) and norm(st.value) == "self.data":
+            out.env[norm(st.targets[0])] = Opaque("data")
             return False
-        ok = start_path_calls_previous(nl.body)
-        r.check("C06.17", ok, "lone-lt-keeps-next-byte", "%s:%d" % (REL, nl.lineno),
-                "after a `<` that is not followed by a letter the pre-scan resumes one byte too far (matchBytes has stepped past the `<`, the "
-                "main loop steps once more): in `<<meta charset=koi8-r>` the second `<` is never examined and the declaration is missed "
-                "(visible where the tree builder cannot see the element either: `<title><<meta charset=koi8-r></title>`)")
+        return NotImplemented
+    try:
+        res = MiniInterp(ce, mod, expr_hook=_hook, stmt_hook=_stmt_hook).run(sf.node.body, dict(sbound, self=Opaque("self")))
+        back = [e for e in res.effects if norm(e.node).endswith(".previous()")]
+        fwd = [e for e in res.effects if "next(" in norm(e.node) or ".skip" in norm(e.node) or "jumpTo" in norm(e.node)]
+        r.idiom("C06.17", len(back) == 1 and not fwd and res.returned, "lone-lt-keeps-next-byte", sf.where,
+                "%s: what happens after a `<` that is not followed by a letter was not recognised" % sf.qual,
+                wrong=[(not back and not fwd and res.returned,
+                        "after a `<` that is not followed by a letter the pre-scan resumes one byte too far (matchBytes has stepped past the `<`, the "
+                        "main loop steps once more): in `<<meta charset=koi8-r>` the second `<` is never examined and the declaration is missed "
+                        "(visible where the tree builder cannot see the element either: `<title><<meta charset=koi8-r></title>`)")])
+    except AnalysisError as e:
+        r.idiom("C06.17", False, "lone-lt-keeps-next-byte", sf.where, "%s not decidable (%s)" % (sf.qual, str(e)[:80]))
     # (h) running off the end of the buffer inside a tag aborts the pre-scan ("... the algorithm is aborted, returning nothing"): the
     # end-of-buffer outcome of the skip before an attribute name must not be taken for the `>` that ends the tag
     firsts = [st for st in ga.node.body if isinstance(st, ast.If)]
@@ -1006,6 +1010,43 @@ def content_charset_grammar(ctx):
                     "content=\"charset text/html; charset=utf-8\" declares nothing")], detail={"loops": in_loop})
 
 
+def _tag_entries(ctx):
+    """The functions the pre-scan's dispatch table runs for `<` + letter and `</` + letter, resolved from the table itself and
+    followed through tail delegations (`return self.worker(<constants>)`): kind -> (function, bound parameters)."""
+    ce = ctx.ce
+    cls = ctx.repo.cls(REL, "EncodingParser")
+    ge = ctx.repo.func(REL, "EncodingParser.getEncoding")
+    table = {}
+    for t in ast.walk(ge.node):
+        if isinstance(t, ast.Tuple) and len(t.elts) == 2 and isinstance(t.elts[1], ast.Attribute) and norm(t.elts[1].value) == "self":
+            k = ce.try_eval(t.elts[0], ge.module, {})
+            if isinstance(k, bytes):
+                table[k] = t.elts[1].attr
+    out = {}
+    for kind, key in (("start", b"<"), ("end", b"</")):
+        name = table.get(key)
+        if name is None or name not in cls.methods:
+            raise AnalysisError("pre-scan dispatch table: no handler for %r" % key)
+        f, env, chain = cls.methods[name], {}, [name]
+        for _ in range(3):
+            body = [x for x in f.node.body if not (isinstance(x, ast.Expr) and isinstance(x.value, ast.Constant))]
+            if not (len(body) == 1 and isinstance(body[0], ast.Return) and isinstance(body[0].value, ast.Call)):
+                break
+            c = body[0].value
+            if not (isinstance(c.func, ast.Attribute) and norm(c.func.value) == "self" and c.func.attr in cls.methods and not c.keywords):
+                break
+            try:
+                args = [ce.eval(a, f.module, dict(env)) for a in c.args]
+            except NotConstant:
+                break
+            g = cls.methods[c.func.attr]
+            env = dict(zip(g.params()[1:], args))
+            f = g
+            chain.append(g.name)
+        out[kind] = (f, env, chain)
+    return out
+
+
 def prescan_tag_rules(ctx):
     """C06.8: the prescan skips over a tag by reading its attributes one by one -- for end tags as well as start tags (a `>`
     inside a quoted attribute value of an end tag does not end it).  (An earlier version of this rule also expected "unless the
@@ -1014,9 +1055,9 @@ def prescan_tag_rules(ctx):
     r = ctx.r
     ce = ctx.ce
     r.rule("C06.8", "prescan: every tag that starts with a letter has its attributes parsed (start and end tags alike)", floor=8)
-    f = ctx.repo.func(REL, "EncodingParser.handlePossibleTag")
-    p = f.params()[1]
+    entries = _tag_entries(ctx)
     for end_tag in (False, True):
+        f, bound, chain = entries["end" if end_tag else "start"]
         for first in (b"a", b"1"):
             for stop in (b" ", b">", b"\t"):
                 got = []
@@ -1045,9 +1086,9 @@ def prescan_tag_rules(ctx):
                 interp = MiniInterp(ce, f.module, expr_hook=hook, stmt_hook=stmt_hook)
                 key = "prescan-tag[end=%d first=%s next=%s]" % (end_tag, first.decode(), stop.decode())
                 try:
-                    interp.run(f.node.body, {p: end_tag, "self": Opaque("self")})
+                    interp.run(f.node.body, dict(bound, self=Opaque("self")))
                 except AnalysisError as e:
-                    r.idiom("C06.8", False, key, f.where, "handlePossibleTag not decidable (%s)" % str(e)[:80])
+                    r.idiom("C06.8", False, key, f.where, "%s not decidable (%s)" % (f.qual, str(e)[:80]))
                     continue
                 exp = first == b"a"
                 r.check("C06.8", bool(got) == exp, key, f.where,
@@ -1068,10 +1109,11 @@ def prescan_dispatch_position(ctx):
     mb = ctx.repo.func(REL, "EncodingBytes.matchBytes")
     after = any(isinstance(s, ast.AugAssign) and norm(s.target) == "self.position" and norm(s.value).startswith("len(") for s in ast.walk(mb.node))
     r.idiom("C06.9", after, "matchBytes-positions-after-prefix", mb.where, "matchBytes no longer advances the position by the length of the prefix")
+    workers = {"self." + f_.name for f_, _, chain_ in _tag_entries(ctx).values() if len(chain_) > 1}
     for m in cls.methods.values():
         body = [s for s in m.node.body if not (isinstance(s, ast.Expr) and isinstance(s.value, ast.Constant))]
         if not body or not (isinstance(body[-1], ast.Return) and isinstance(body[-1].value, ast.Call) and
-                            norm(body[-1].value.func) == "self.handlePossibleTag"):
+                            norm(body[-1].value.func) in workers):
             continue
         moves = [norm(s) for s in body[:-1] if any(
             (isinstance(c, ast.Call) and (norm(c.func) in ("next", "self.data.next", "self.data.__next__", "self.data.previous") or
